@@ -22,10 +22,11 @@ func main() {
 	replay := fs.String("replay", "", "replay file (json case)")
 	known := fs.String("known", "", "comma separated tags of known findings whose input classes are generated")
 	par := fs.Int("par", 12, "cases run in parallel")
+	stream := fs.Int("stream", 0, "generator stream (batches of one check run use different streams)")
 	fs.Parse(os.Args[2:])
 	switch os.Args[1] {
 	case "hist":
-		runHist(*n, *out, *replay, *known, *par)
+		runHist(*n, *out, *replay, *known, *par, int64(*stream))
 	default:
 		fmt.Fprintln(os.Stderr, "unknown subcommand")
 		os.Exit(2)
